@@ -47,6 +47,7 @@ structure WSt where
   bufSize : Nat        -- WriteBuffer.currentSize
   bs : Nat             -- maxBlockSize
   dirty : Bool := false  -- (repaired writer) a failed block could not be cut off yet
+  szs : List Nat := []   -- `Entry.Size()` of the buffered entries (what `Restore` sums up again)
   deriving DecidableEq, Repr
 
 def createOps (p : Path) (nl : Nat) : List FsOp :=
@@ -85,13 +86,21 @@ def flushW (mk : Mk) (w : WSt) : WSt × List FsOp :=
   | [] => (w, [])
   | _ =>
     let b := mk w.buf
-    ({ w with pos := w.pos + 16 + b.plen, buf := [], bufSize := 0 },
+    ({ w with pos := w.pos + 16 + b.plen, buf := [], bufSize := 0, szs := [] },
      [.write w.path w.pos (hdrCells b), .write w.path (w.pos + 16) (payCells b), .write w.path 0 (fhCells w.nl)])
 
-/-- `WriteEntry`: `Add` then flush when `currentSize >= maxSize` -/
+/-- `WriteBuffer.Add` -/
+def WSt.push (w : WSt) (e : Op) (sz : Nat) : WSt :=
+  { w with buf := w.buf ++ [e], bufSize := w.bufSize + sz, szs := w.szs ++ [sz] }
+
+/-- what `Add` / `ShouldFlush` report: `currentSize >= maxSize || len(entries) >= math.MaxUint16` -/
+def WSt.full (w : WSt) : Prop := w.bufSize ≥ w.bs ∨ w.buf.length ≥ maxEnts
+
+instance (w : WSt) : Decidable w.full := by unfold WSt.full; exact inferInstance
+
+/-- `WriteEntry`: `Add`, then flush when the buffer reports full -/
 def addW (mk : Mk) (w : WSt) (e : Op) (sz : Nat) : WSt × List FsOp :=
-  let w1 := { w with buf := w.buf ++ [e], bufSize := w.bufSize + sz }
-  if w1.bufSize ≥ w1.bs then flushW mk w1 else (w1, [])
+  if (w.push e sz).full then flushW mk (w.push e sz) else (w.push e sz, [])
 
 def addManyW (mk : Mk) (w : WSt) : List (Op × Nat) → WSt × List FsOp
   | [] => (w, [])
